@@ -563,7 +563,74 @@ func c09Reload(c *core.Ctx) {
 		inInner = "ev:ininner"
 		carried = "ev:carried"
 		created = "ev:created"
+		inited  = "ev:inited"
 	)
+	// URLRule.Init (compiles the regular expression, sets the id) must have run for every rule
+	// of the new generation, in the carry-over branch as in the create branch
+	const initFull = "(*pkg/util/urlrule.URLRule).Init"
+	initers := c09reach(pkg, func(fl *flow.Func) bool {
+		return len(callsTo(fl, fl.Body, true, initFull)) > 0
+	})
+	outerVar := map[types.Object]bool{}
+	limiterLoop := map[ast.Stmt]bool{}
+	auxIdx := map[ast.Stmt]int{}
+	for l := range outer {
+		rs := l.(*ast.RangeStmt)
+		if id, ok := rs.Value.(*ast.Ident); ok {
+			outerVar[c09obj(f, id)] = true
+		}
+		for _, cr := range carries {
+			if contains(rs, cr.as) {
+				limiterLoop[l] = true
+			}
+		}
+		for n := range createStore {
+			if contains(rs, n) {
+				limiterLoop[l] = true
+			}
+		}
+		for _, call := range calls(rs.Body, false) {
+			if fo, ok := f.Callee(call).(*types.Func); ok && creators[fo] {
+				limiterLoop[l] = true
+			}
+		}
+		if !limiterLoop[l] {
+			auxIdx[l] = len(auxIdx)
+		}
+	}
+	initsRule := func(call *ast.CallExpr, callee types.Object) bool {
+		fo, ok := callee.(*types.Func)
+		if !ok {
+			return false
+		}
+		onRule := func(e ast.Expr) bool {
+			id := c09root(c09resolve(f, e))
+			return id != nil && outerVar[c09obj(f, id)]
+		}
+		if calleeIs(f, call, initFull) {
+			sel, ok := ast.Unparen(call.Fun).(*ast.SelectorExpr)
+			return ok && onRule(sel.X)
+		}
+		if !initers[fo] {
+			return false
+		}
+		for _, a := range call.Args {
+			if onRule(a) {
+				return true
+			}
+		}
+		if sel, ok := ast.Unparen(call.Fun).(*ast.SelectorExpr); ok && onRule(sel.X) {
+			return true
+		}
+		return false
+	}
+	type iterEnd struct {
+		st     *flow.State
+		loop   ast.Stmt
+		inited bool
+	}
+	var limiterEnds []iterEnd
+	auxBad := map[int]bool{}
 	type bad struct {
 		st  *flow.State
 		at  ast.Node
@@ -592,7 +659,23 @@ func c09Reload(c *core.Ctx) {
 					st.Set(inBody, flow.True)
 					st.Set(carried, flow.False)
 					st.Set(created, flow.False)
+					st.Set(inited, flow.False)
+				case cfg.KindRangeDone:
+					if i, isAux := auxIdx[b.Stmt]; isAux {
+						st.Set(sprintf("ev:auxdone:%d", i), flow.True)
+					}
 				case cfg.KindRangeLoop:
+					if i, isAux := auxIdx[b.Stmt]; isAux {
+						if st.Is(inBody, flow.True) && !st.Is(inited, flow.True) {
+							auxBad[i] = true
+						}
+						st.Set(inBody, flow.Unknown)
+						st.Set(inited, flow.Unknown)
+						break
+					}
+					if st.Is(inBody, flow.True) {
+						limiterEnds = append(limiterEnds, iterEnd{st, b.Stmt, st.Is(inited, flow.True)})
+					}
 					if st.Is(inBody, flow.True) {
 						nEnds++
 						if !st.Is(carried, flow.True) && !st.Is(created, flow.True) && badEnd == nil {
@@ -602,6 +685,7 @@ func c09Reload(c *core.Ctx) {
 					st.Set(inBody, flow.Unknown)
 					st.Set(carried, flow.Unknown)
 					st.Set(created, flow.Unknown)
+					st.Set(inited, flow.Unknown)
 				}
 			}
 			if cr := inner[b.Stmt]; cr != nil {
@@ -621,6 +705,9 @@ func c09Reload(c *core.Ctx) {
 			}
 		},
 		OnCall: func(st *flow.State, call *ast.CallExpr, callee types.Object, deferred bool) {
+			if initsRule(call, callee) {
+				st.Set(inited, flow.True)
+			}
 			if fo, ok := callee.(*types.Func); ok && creators[fo] {
 				if st.Is(carried, flow.True) && badAfter == nil {
 					badAfter = &bad{st, call, "a new limiter is created for a URL rule after the previous generation's limiter was carried over to it: the accumulated state is discarded on every reload"}
@@ -693,7 +780,7 @@ func c09Reload(c *core.Ctx) {
 		ok := badEnd == nil
 		whyEnd := why(badEnd)
 		var wEnd []string
-		for l := range outer {
+		for l := range limiterLoop {
 			if ex := breaksOut(f, l, labelOf(f.Body, l)); len(ex) > 0 && ok {
 				ok = false
 				whyEnd = "the loop over the new generation's URL rules can be left early (" + pos(c, ex[0]) + "): the remaining rules get no limiter"
@@ -704,6 +791,29 @@ func c09Reload(c *core.Ctx) {
 		}
 		c.Check(ok, "R-C09-3", cons+"|every URL rule ends with a limiter", at(badEnd, f.Body),
 			sprintf("%d abstract iteration end(s): carried or created in each; loops are not left early", nEnds), whyEnd, wEnd...)
+	}
+	{
+		var badInit *iterEnd
+		for i := range limiterEnds {
+			e := &limiterEnds[i]
+			ok := e.inited
+			for _, ai := range auxIdx {
+				if !auxBad[ai] && e.st.Is(sprintf("ev:auxdone:%d", ai), flow.True) {
+					ok = true // a separate loop over the new rules initialised all of them before
+				}
+			}
+			if !ok && badInit == nil {
+				badInit = e
+			}
+		}
+		var wInit []string
+		atInit := pos(c, f.Body)
+		if badInit != nil {
+			wInit, atInit = witness(badInit.st), pos(c, badInit.loop)
+		}
+		c.Check(badInit == nil, "R-C09-3", cons+"|every URL rule is initialised", atInit,
+			sprintf("%d abstract iteration end(s): URLRule.Init has run for the rule in each (directly or inside the creating helper)", len(limiterEnds)),
+			"an iteration over the new generation's URL rules ends without URLRule.Init having run for the rule on this path: its regular expression is never compiled and its id never set, so after the reload a `regex` rule matches nothing and its requests bypass the limiter altogether", wInit...)
 	}
 	if len(inner) == 0 {
 		c.Undecide("R-C09-3", cons+"|unchanged rule keeps its limiter state", pos(c, first), "the carry-over store is not inside a loop over the previous generation's rules")
